@@ -964,15 +964,6 @@ func (p *parser) parseSignalType() (*SignalType, *SignalTypeRef, error) {
 
 		t = p.scan()
 		if !t.isNumber() {
-			return nil, nil, p.errorf("expected signal start bit")
-		}
-
-		if err := p.expectPunct(punctPipe); err != nil {
-			return nil, nil, err
-		}
-
-		t = p.scan()
-		if !t.isNumber() {
 			return nil, nil, p.errorf("expected signal size")
 		}
 		size, err := p.parseUint(t.value)
